@@ -221,12 +221,12 @@ fn theta_axes(p: &Parameters, thorough: bool) -> [Vec<f64>; 6] {
         ]
     } else {
         [
-            vec![0.0, 0.7, -2.4, PI, 1.9, -0.4, 3.0, -PI, 2.6],
-            vec![-0.9, 0.2, 1.3, -2.2, 2.4, 0.0],
-            vec![-1.9, 0.8, -psi, -psi + 1e-7, -psi + 1e-3, PI - psi, 2.3],
-            vec![0.0, 1.1, -3.0, 2.0, PI, -1.3, 0.4, -0.6, 2.9],
+            vec![0.0, 0.7, -2.4, PI, 1.9, -0.4],
+            vec![-0.9, 0.2, 1.3, -2.2],
+            vec![-1.9, 0.8, -psi, -psi + 1e-7, -psi + 1e-3, PI - psi],
+            vec![0.0, 1.1, -3.0, 2.0, PI, -1.3],
             vec![0.6, -1.2, 0.0, PI, 1e-9, -1e-9, THR / 2.0, -THR / 2.0, 2.4, -PI],
-            vec![0.0, 2.5, -1.0, PI, -2.9],
+            vec![0.0, 2.5, -1.0],
         ]
     }
 }
@@ -257,7 +257,20 @@ const JUNK: [f64; 6] = [f64::NAN, f64::INFINITY, f64::NEG_INFINITY, 1e308, -1e30
 
 pub fn run(ctx: &Ctx) -> Report {
     let thorough = !ctx.quick();
-    let robots = robot_axis(if thorough { 1 } else { 0 }, &[6, 5]);
+    let mut robots = robot_axis(if thorough { 1 } else { 0 }, &[6, 5]);
+    // degenerate geometries: divisions by zero inside the closed form must surface as "no answer", never as a panic,
+    // a non-finite value or an answer that misses the pose
+    for dof in [6i8, 5] {
+        for (a1, a2, b, c) in [
+            (0.1, -0.1, 0.0, [0.5, 0.0, 0.6, 0.1]), // c2 = 0
+            (0.1, 0.0, 0.0, [0.5, 0.6, 0.0, 0.1]),  // a2 = c3 = 0
+            (0.0, 0.0, 0.0, [0.0, 0.5, 0.5, 0.0]),  // c1 = c4 = a1 = 0
+            (0.0, 0.0, 0.0, [0.0, 0.0, 0.0, 0.0]),  // everything zero
+            (0.1, 0.1, 0.3, [0.4, 0.3, 0.3, 0.1]),  // |b| large against the reach in the horizontal plane
+        ] {
+            robots.push(make(a1, a2, b, c, [1, -1, 1, -1, 1, -1], [0.0, 0.0, -PI / 2.0, 0.0, 0.0, 0.0], dof));
+        }
+    }
     // per-robot pose lists are built lazily inside the worker; sizes are uniform
     let ax0 = theta_axes(&robots[0], thorough);
     let sizes_a: Vec<usize> = ax0.iter().map(|a| a.len()).collect();
